@@ -642,6 +642,36 @@ def _n27_filterloop(func):
     return False
 
 
+def _n30_sortcopy(func):
+    """N30  v = list(E) / E[:] / [comprehension] / a + b ; v.sort(key=K, reverse=R)   ->   v = sorted(E, key=K, reverse=R)
+    (a fresh list sorted in place is what sorted() returns: same elements, same stable order)"""
+    for lst in _stmt_lists(func):
+        for i in range(len(lst) - 1):
+            a, b = lst[i], lst[i + 1]
+            if not (isinstance(a, ast.Assign) and len(a.targets) == 1 and isinstance(a.targets[0], ast.Name)):
+                continue
+            v = a.targets[0].id
+            if not (isinstance(b, ast.Expr) and isinstance(b.value, ast.Call) and isinstance(b.value.func, ast.Attribute)
+                    and b.value.func.attr == 'sort' and isinstance(b.value.func.value, ast.Name) and b.value.func.value.id == v
+                    and not b.value.args and all(k.arg in ('key', 'reverse') for k in b.value.keywords)):
+                continue
+            e = a.value
+            src = None
+            if isinstance(e, ast.Call) and isinstance(e.func, ast.Name) and e.func.id == 'list' and len(e.args) == 1 and not e.keywords:
+                src = e.args[0]
+            elif isinstance(e, ast.Subscript) and isinstance(e.slice, ast.Slice) and e.slice.lower is None and e.slice.upper is None \
+                    and e.slice.step is None:
+                src = e.value
+            elif isinstance(e, (ast.ListComp, ast.List)) or (isinstance(e, ast.BinOp) and isinstance(e.op, ast.Add)):
+                src = e
+            if src is None or v in _names(src) or any(v in _names(k.value) for k in b.value.keywords):
+                continue
+            call = ast.Call(func=ast.Name(id='sorted', ctx=ast.Load()), args=[src], keywords=b.value.keywords)
+            lst[i:i + 2] = [_assign(a.targets[0], _loc(call, a), a)]
+            return True
+    return False
+
+
 def _n13_annassign(st):
     """x: T = v  ->  x = v ;  x: T  ->  pass   (annotations of locals are never evaluated)"""
     if isinstance(st, ast.AnnAssign) and isinstance(st.target, ast.Name):
@@ -1559,6 +1589,12 @@ def normalise(tree, ctx=None, mname='', aliases=None, enabled=None):
                 if inl.done:
                     bump('N5')
                     changed = True
+            if on('N30'):
+                k = 0
+                while k < 20 and _n30_sortcopy(func):
+                    bump('N30')
+                    changed = True
+                    k += 1
             if on('N27'):
                 k = 0
                 while k < 20 and _n27_filterloop(func):
